@@ -118,7 +118,8 @@ def _verdict(rows, t0, sample, aspect=None):
     sample['vcs'] = [{'vc': r[0], 'status': r[1]} for r in rows][:14]
     sample['n_vcs'] = len(rows)
     if bad:
-        return Verdict('refuted', 'z3', time.time() - t0, '; '.join('%s %s' % (r[0], r[2]) for r in bad)[:600], witness={'failed': [r[0] for r in bad]}, sample=sample, replay=_replay_gen())
+        rp = _replay_crn(sample['generator']) if (sample.get('generator') and any('caller-supplied' in r[0] for r in bad)) else _replay_gen()
+        return Verdict('refuted', 'z3', time.time() - t0, '; '.join('%s %s' % (r[0], r[2]) for r in bad)[:600], witness={'failed': [r[0] for r in bad]}, sample=sample, replay=rp)
     if unk:
         return Verdict('unknown', 'z3', time.time() - t0, '; '.join('%s %s' % (r[0], r[2]) for r in unk)[:600], sample=sample)
     return Verdict('proved', 'z3 (NRA+UF, quantified loop invariants)', time.time() - t0, '%d VCs' % len(rows), sample=sample)
@@ -134,6 +135,29 @@ def _side_rows(p, skip_kinds=('bounds',)):
 
 
 # ------------------------------------------------------------------ loop-free generators: exact path-wise identities
+
+CRN_REPLAY = '''
+import math
+import pfhedge.stochastic as ps
+torch.manual_seed(1)
+Z = torch.randn(4, 7, dtype=torch.float64); keep = Z.clone()
+eng = lambda *size, **kw: Z
+kw = dict(init_state=(1.25,), sigma=0.25, mu=0.125, dt=0.03125, dtype=torch.float64, engine=eng)   # exactly representable parameters
+fn = getattr(ps, W["gen"])
+fn(4, 7, **kw); out = fn(4, 7, **kw)
+w = keep.clone(); w[:, 0] = 0.0
+tt = torch.arange(7, dtype=torch.float64) * 0.03125
+bm = 0.125 * tt + 0.25 * math.sqrt(0.03125) * w.cumsum(1)
+ref = 1.25 * (bm - 0.03125 * tt).exp() if "geometric" in W["gen"] else 1.25 + bm
+result = {"got": out.reshape(-1).tolist(), "ref": ref.reshape(-1).tolist()}
+'''
+
+
+def _replay_crn(name):
+    r = real_exec(CRN_REPLAY, {'gen': name}, timeout=300)
+    ok = r.get('ok') and all(abs(a_ - b_) <= 1e-7 * max(1.0, abs(b_)) for a_, b_ in zip(r['result']['got'], r['result']['ref']))
+    return {'real': r, 'confirmed': not ok}
+
 
 def brownian_ob(geometric, aspect=None):
     name = 'generate_geometric_brownian' if geometric else 'generate_brownian'
@@ -172,6 +196,32 @@ def brownian_ob(geometric, aspect=None):
             rows.append((LAW + 'value == exact solution of the SDE step by step', {'unsat': 'proved', 'sat': 'refuted'}.get(r.status, 'unknown'), tm.show(res.at((n, j)))[:300] if r.status != 'unsat' else ''))
             # horizon independence: column j does not mention n_steps
             rows.append((LAW + 'column j independent of the horizon', 'proved' if T not in tm.free_vars(res.at((n, j))) else 'refuted', ''))
+        # the caller's normals, used twice (common random numbers): the engine hands out the SAME caller-owned tensor on every call;
+        # the second path must still be the exact solution in terms of those normals (column 0 does not enter)
+        if aspect in (None, 'law'):
+            from pfv.torchlib.tensor import Tensor
+
+            def run2(c):
+                c.lazy_defined = True
+                Zc = Tensor.input('Zc', (N, T), torch.float64)
+                kw = dict(init_state=(SReal(V['x0']),), sigma=SReal(V['sigma']), mu=SReal(V['mu']), dt=SReal(V['dt']), dtype=torch.float64, engine=lambda *size, **k_: Zc)
+                getattr(ps, name)(SInt(N), SInt(T), **kw)
+                return getattr(ps, name)(SInt(N), SInt(T), **kw)
+            for p in explore(run2, hyps, max_paths=8):
+                if p.outcome() != 'returns':
+                    rows.append((LAW + 'second use of the caller\'s normals', 'unknown', str((p.outcome(), str(p.exception)[:200]))))
+                    continue
+                n, j, k = tm.var('n', 'I'), tm.var('j', 'I'), tm.fresh('k', 'I')
+                rng = [tm.le(tm.IZERO, n), tm.lt(n, N), tm.le(tm.IZERO, j), tm.lt(j, T)]
+                W2 = tm.tsum(k, tm.IZERO, tm.add(j, tm.IONE), tm.ite(tm.eq(k, tm.IZERO), tm.ZERO, tm.sel('Zc', n, k)))
+                tj = tm.mul(V['dt'], tm.toreal(j))
+                bm2 = tm.add(tm.mul(V['mu'], tj), tm.mul(V['sigma'], tm.app('sqrt', V['dt']), W2))
+                want2 = tm.mul(V['x0'], tm.app('exp', tm.sub(bm2, tm.mul(tm.const(0.5), V['sigma'], V['sigma'], tj)))) if geometric else tm.add(V['x0'], bm2)
+                r = fc.prove_eq(p.facts(hyps) + rng, p.result.at((n, j)), want2, timeout_ms=30000)
+                st_ = {'unsat': 'proved', 'sat': 'refuted'}.get(r.status, 'unknown')
+                if st_ == 'refuted':
+                    st_ = 'refuted' if _replay_crn(name).get('confirmed') else 'unknown'
+                rows.append((LAW + 'the same caller-supplied normals used a second time give the exact solution again', st_, tm.show(p.result.at((n, j)))[:300] if r.status != 'unsat' else ''))
         return _verdict(rows, t0, sample, aspect)
     return Obligation('GEN/%s/post' % name, 'post', S_ + 'brownian.' + name, check, _props(aspect),
                       clause='%s: (n_paths, n_steps) series, first column = initial state, %svalue[n,t] = %s for all n_paths, n_steps' % (
